@@ -172,6 +172,7 @@ def run(chk):
              for c in cases]
     model = [mval(v) for v in C.eval_cases("C12s", IMPORTS, "", exprs)]
     dis, knife = [], 0
+    nfresh = 0
     for c, i, m in zip(cases, impl, model):
         chk.note_distinct(c)
         A = amp(c["a"], c["k"], c["m1"], c["m2"]) if c["m2"] != c["m1"] else 1.0
@@ -188,6 +189,9 @@ def run(chk):
         elif not C.close_float(i, m, rtol=tol):
             dis.append(dict(input=c, impl=C.jsonable(i), model=C.jsonable(m), tol=tol))
         oracle_scalar(chk, c, i, res)
+        if c["m2"] > c["m1"] > 0 and not math.isnan(i) and nfresh < 60:
+            nfresh += 1
+            result_is_fresh_test(chk, c)
     chk.correspondence("Pk scalar form (1e-9 + rounding amplification) vs masses.Pk", len(cases), dis, knife_edge=knife)
     chk.samples.append(dict(kind="scalar", case=cases[10], impl=C.jsonable(impl[10]), model=C.jsonable(model[10])))
     # ---- additivity and mean in bin on the implementation -----------
@@ -280,6 +284,24 @@ def interval_goals(chk, sel, impl, cases):
                rc == 0, (err or out)[-400:] if rc else "")
 
 
+def result_is_fresh_test(chk, case):
+    """a result handed to the caller is the caller's: scaling it in place (P1 *= A, the usual next step) must not change what the same call returns next"""
+    from ssptools.masses import Pk as Pk_
+    a, k, m1, m2 = case["a"], case["k"], case["m1"], case["m2"]
+    r1 = Pk_(a, k, m1, m2)
+    v1 = float(r1)
+    try:
+        r1 *= 1e5
+    except TypeError:
+        return      # an immutable scalar was returned: nothing the caller could overwrite
+    r2 = Pk_(a, k, m1, m2)
+    v2 = float(r2)
+    chk.count("scalar results modified in place by the caller, then recomputed")
+    if not (C.same_float(v1, v2)):
+        chk.fail("integral to 1e-9 relative accuracy", dict({k_: v_ for k_, v_ in case.items() if k_ != "note"}, note="same scalar call repeated after the caller scaled the first result in place"),
+                 dict(first=v1, second=v2))
+
+
 def reuse_test(chk, case):
     """the way the library uses it: ONE slope array (and one pair of edge arrays), several moments taken one after the other
     (P1 then P2 then P1 again); each must equal the first call, and the arrays come back untouched"""
@@ -302,6 +324,8 @@ def replay(chk, payload):
     res = float(np.finfo(float).resolution)
     if isinstance(c.get("a"), list) and c.get("note"):
         reuse_test(chk, c)
+    elif c.get("note"):
+        result_is_fresh_test(chk, c)
     elif isinstance(c.get("a"), list):
         arr = impl_array(c["a"], c["k"], c["m1"], c["m2"])
         sc = [impl_scalar(x, c["k"], y, z) for x, y, z in zip(c["a"], c["m1"], c["m2"])]
